@@ -155,6 +155,43 @@ class P(ServeProp):
                         for c in idle:
                             try: c.close()
                             except OSError: pass
+                # other clients that were answered and stay connected: N clients send a request that fills the request buffer exactly (or
+                # overflows it), read their answer and keep the socket open; a request on one more connection still gets its serial answer
+                # (a worker is free again once it has answered - it never waits for an answered client to hang up)
+                linger = []
+                try:
+                    for j in range(N):
+                        total = rnd.choice([10000, 10000, 12000, 9999])
+                        head = b"GET /f%d.txt HTTP/1.1\r\nHost: localhost\r\nX-Pad: " % (j % 12)
+                        rq = head + b"a" * (total - len(head) - 4) + b"\r\n\r\n"
+                        try:
+                            c = s.conn(5.0); c.sendall(rq)
+                            try: netprobe.recv_all(c, 1.0)
+                            except OSError: pass
+                            linger.append(c)
+                        except OSError:
+                            pass
+                    pick = rnd.randrange(len(reqs))
+                    got = None
+                    for deadline in (3.0, 8.0, 8.0):
+                        try:
+                            got = canon_resp(s.request(reqs[pick], timeout=deadline))
+                        except Exception:
+                            got = None
+                        if got == serial[pick]:
+                            break
+                    compared += 1
+                    if got != serial[pick]:
+                        fails.append(("with %d answered clients still connected on -t=%d a request on another connection did not receive its serial answer" % (len(linger), N),
+                                      "response-waits-for-answered-connections", None,
+                                      {"request": reqs[pick][:200].decode("latin-1"), "threads": N, "lingering_connections": len(linger),
+                                       "lingering_request": "GET /fK.txt with an X-Pad header, 9999..12000 bytes in all",
+                                       "serial": (serial[pick] or b"")[:300].decode("latin-1"), "received": (got or b"")[:300].decode("latin-1")}))
+                        break
+                finally:
+                    for c in linger:
+                        try: c.close()
+                        except OSError: pass
                 # other clients that abort: a connection opened before a burst of connections that send a request and reset at once (some
                 # are reset while still in the accept queue) must still receive its own serial answer
                 for storm in range(1 if tier == "quick" else 3):
